@@ -459,8 +459,17 @@ static void prop_one_level(Tape &t, Ctx &c) {
     std::vector<double> f = gen_vec(t, n, 2);
     if (n) f[0] = 1.0;
     int active = 0; for (int r = 0; r < k; ++r) active += dom[r + 1] > dom[r];
+    // deflation space: constant (1 vector), constant per degree of freedom (constant_deflation(bs)), or generated vectors
+    // (first one constant, the others generic values per global row). Every sub-domain needs at least ndv rows, otherwise
+    // its vectors are linearly dependent and the coarse matrix Z^T A Z is singular by construction.
+    ptrdiff_t minrows = n; for (int r = 0; r < k; ++r) minrows = std::min(minrows, dom[r + 1] - dom[r]);
+    int dkind = sdd ? static_cast<int>(t.u(0, 2)) : 0, ndv = 1;
+    if (dkind) { ndv = static_cast<int>(t.u(2, 3)); if (minrows < ndv) { dkind = 0; ndv = 1; } }
+    std::vector<double> ztab;
+    if (dkind == 2) { ztab.resize(static_cast<size_t>(n) * ndv); for (ptrdiff_t i = 0; i < n; ++i) for (int j = 0; j < ndv; ++j) ztab[i * ndv + j] = j == 0 ? 1.0 : t.uni(0.5, 1.5) + (t.b() ? static_cast<double>(i) / n : 0.0); }
+    if (sdd) c.label(dkind == 0 ? "deflation:constant" : dkind == 1 ? "deflation:constant-per-dof" : "deflation:generated-vectors");
     c.label(sdd ? "subdomain_deflation" : "block_preconditioner"); c.label(std::string("s:") + LSOLVER[si]); c.label(local_amg ? "local:amg" : "local:relaxation");
-    c.desc << (sdd ? "subdomain_deflation" : "block_preconditioner") << " ranks=" << k << " " << LSOLVER[si] << " local=" << (local_amg ? "amg/" : "relax/") << LRELAX[ri] << " " << g.family << " n=" << n << " dom:"; for (auto d : dom) c.desc << d << ",";
+    c.desc << (sdd ? "subdomain_deflation" : "block_preconditioner") << " ranks=" << k << " " << LSOLVER[si] << " local=" << (local_amg ? "amg/" : "relax/") << LRELAX[ri] << " " << g.family << " n=" << n << " deflation_kind=" << dkind << " ndv=" << ndv << " dom:"; for (auto d : dom) c.desc << d << ",";
     Csr<double> Al = strip(A, dom[me], dom[me + 1]);
     auto tup = std::make_tuple(static_cast<size_t>(Al.n), Al.ptr, Al.col, Al.val);
     std::vector<double> fl(f.begin() + dom[me], f.begin() + dom[me + 1]), xl(Al.n, 0.0);
@@ -471,7 +480,10 @@ static void prop_one_level(Tape &t, Ctx &c) {
             typename SDD::params prm;
             prm.local = lp;
             prm.isolver.put("type", LSOLVER[si]); prm.isolver.put("tol", 1e-8); prm.isolver.put("maxiter", 300);
-            prm.num_def_vec = 1; prm.def_vec = amgcl::mpi::constant_deflation(1);
+            prm.num_def_vec = ndv;
+            const ptrdiff_t row0 = dom[me];
+            if (dkind == 2) prm.def_vec = [&ztab, ndv, row0](ptrdiff_t i, unsigned j) { return ztab[(row0 + i) * ndv + j]; };
+            else prm.def_vec = amgcl::mpi::constant_deflation(ndv);
             SDD S(comm, tup, prm);
             std::tie(iters, resid) = S(fl, xl);
         } else {
